@@ -353,11 +353,11 @@ pub fn gen_ws(rng: &mut Rng, o: &WsOpts) -> WsSpec {
     if rng.chance(300) {
         let d = rng.pick(&dirs).clone();
         if rng.chance(500) {
-            files.push(PyFile { rel: join_rel(&d, "orphan_fixtures.py"), items: vec![Item::Fixture(Fx { func: rng.pick(&names).clone(), ..Default::default() })] });
+            files.push(PyFile { rel: join_rel(&d, "orphan_fixtures.py"), items: vec![Item::Fixture(Fx { func: "orphan_only_fx".into(), ..Default::default() }), Item::Fixture(Fx { func: rng.pick(&names).clone(), ..Default::default() })] });
         } else {
             // ... in a sub-directory of its own, importing a sibling there relatively (two hops from whoever starts importing it)
             let od = join_rel(&d, "orph");
-            files.push(PyFile { rel: join_rel(&od, "orphan_fixtures.py"), items: vec![Item::Star { module: ".deep_orphan".into(), target: Some(join_rel(&od, "deep_orphan.py")) }, Item::Fixture(Fx { func: rng.pick(&names).clone(), ..Default::default() })] });
+            files.push(PyFile { rel: join_rel(&od, "orphan_fixtures.py"), items: vec![Item::Star { module: ".deep_orphan".into(), target: Some(join_rel(&od, "deep_orphan.py")) }, Item::Fixture(Fx { func: "orphan_only_fx".into(), ..Default::default() }), Item::Fixture(Fx { func: rng.pick(&names).clone(), ..Default::default() })] });
             files.push(PyFile { rel: join_rel(&od, "deep_orphan.py"), items: vec![Item::Fixture(Fx { func: "deep_orphan_fx".into(), ..Default::default() })] });
         }
     }
